@@ -97,7 +97,11 @@ fn one_backend(req: &Value, be: &str) -> Value {
             .map(|a| a.iter().map(rt::denum).collect())
             .unwrap_or_default();
         // never hand the runtime more input words than dsp declares
-        let inp: Vec<f64> = inp.into_iter().take(io.map_or(0, |i| i.0 as usize)).collect();
+        // and always as many as it declares (zeros when the request gives none): the audio
+        // drivers write the input words before every dsp call
+        let nin = io.map_or(0, |i| i.0 as usize);
+        let mut inp: Vec<f64> = inp.into_iter().take(nin).collect();
+        inp.resize(nin, 0.0);
         let res = catch_unwind(AssertUnwindSafe(|| r.tick(&inp)));
         match res {
             Ok((rc, o)) => {
@@ -119,7 +123,14 @@ fn one_backend(req: &Value, be: &str) -> Value {
             }
         }
         if rec_words {
-            let (pos, w) = r.words();
+            let (pos, mut w) = r.words();
+            // the WASM host grows its storage on demand: untouched trailing cells are zero
+            if let Some(sk) = r.skeleton() {
+                let total = sk.total_size() as usize;
+                if w.len() < total {
+                    w.resize(total, 0);
+                }
+            }
             cursors.push(json!(pos));
             if words_digest && w.len() > 16 {
                 // FNV-1a over the words: long state vectors travel as [length, digest]
